@@ -60,11 +60,21 @@ def check_config(ctx, F, tag):
         else:
             expect.append(("other", it["ty"]))
     got = [core(wh.term_of_operand(t["args"][1])) for _, t in pushes]
+    if not got and len(arrays_in(wh)) == 1:
+        got = [core(x) for x in arrays_in(wh)[0][2]]          # the header built as one array literal (extend_from_slice(&[len, words]))
     ok = len(got) == len(expect) == 2 and expect[0] == ("field", ["len"]) and expect[1][0] == "veclen" and \
         m(SelfField("len"), got[0]) and m(Call("bits::bits_to_words", SelfField("len")), got[1])
+    sem, pos = "", False
+    if not ok and len(got) == len(expect) == 2 and expect[0] == ("field", ["len"]) and expect[1][0] == "veclen" and m(SelfField("len"), got[0]):
+        # the word count written differently: decided over the residues of len (A13)
+        import residues
+        r_, sem = residues.agrees(F, got[1], lambda x: self_path(x) == ["len"], lambda N: residues.call("bits::bits_to_words", N))
+        ok, pos = (True if r_ else ok), r_ is False
+    if not ok and not got:
+        ok = None           # the header is assembled in a way this rule does not read
     ctx.ob("C12.R1.raw-header-agreement", RW + "::write_header" + tag, loc(wh.raw["span"]), ok, "sequence-agreement",
-           "writer header = %s; RawVector::serialize_header writes %s (data.len() == bits_to_words(len) by the loader's invariant)" % (
-               [tstr(g) for g in got], serfmt.describe(rvh)))
+           "writer header = %s; RawVector::serialize_header writes %s (data.len() == bits_to_words(len) by the loader's invariant) %s" % (
+               [tstr(g) for g in got], serfmt.describe(rvh), sem), positive=pos)
     # seek to the start precedes, serialize_body of the header follows, all propagated
     seeks = [bi for bi, t in wh.calls() if callee_written(t) == "std::io::Seek::seek" and
              m(("adt", "std::io::SeekFrom", "Start", ANY, (Const(0),)), wh.term_of_operand(t["args"][1]))]
@@ -240,11 +250,23 @@ def check_config(ctx, F, tag):
             else:
                 from guards import is_max_name
                 ok = m(Call(is_max_name, Call("bits::round_up_to_word_bits", ANY), Const(64)), bl) or m(Call(is_max_name, Const(64), Call("bits::round_up_to_word_bits", ANY)), bl)
+                if not ok:
+                    # written differently: the same function of the requested size for every size (A13), e.g.
+                    # `n.next_multiple_of(64).max(64)`; `n.next_multiple_of(64)` alone is refuted at n = 0
+                    import residues
+                    wp = [i for i in range(b.nargs) if b.local_name(i + 1) == "buf_len"]
+                    if wp:
+                        r_, why = residues.agrees(F, bl, lambda x: x[:2] == ("param", wp[0]),
+                                                  lambda N: residues.call("std::cmp::max", residues.call("bits::round_up_to_word_bits", N), ("const", 64)))
+                        ok = bool(r_)
+                        sem_bl = why
+                        pos_bl = r_ is False
             ln = b.term_of_operand(ops["len"])
             fl = core(b.term_of_operand(ops["file"]))
             ok = ok and m(Const(0), ln) and fl[0] == "adt" and fl[2] == "Some"
-            detail = "buf_len = %s (positive multiple of 64), len = %s, file = Some(..)" % (tstr(bl)[:80], tstr(ln))
-        ctx.ob("C12.R3.buf-len-multiple-of-64", ctor + tag, loc(b.raw["span"]), ok, "term-shape+constant", detail)
+            detail = "buf_len = %s (positive multiple of 64), len = %s, file = Some(..) %s" % (tstr(bl)[:80], tstr(ln), locals().get("sem_bl", ""))
+        ctx.ob("C12.R3.buf-len-multiple-of-64", ctor + tag, loc(b.raw["span"]), ok, "term-shape+constant", detail, positive=bool(locals().get("pos_bl")) and not ok)
+        sem_bl, pos_bl = "", False
     # flush: after the buffer body was written successfully it is cleared on every path
     fb = F.body(RW + "::flush")
     sites = try_sites(fb)
